@@ -14,6 +14,7 @@ import (
 	"fmt"
 	"os"
 	"path/filepath"
+	"runtime"
 	"strings"
 
 	sqlite3 "github.com/mattn/go-sqlite3"
@@ -396,13 +397,12 @@ func (r *runner) body(h *gorm.DB, b *Blk, log *[]Obs) error {
 					}
 					// a panic is passing through Transaction
 					o.Ret = Cls{K: "panic", Code: r.curPanic}
-					if it.Rcv {
-						if p := recover(); p != nil {
-							recovered = true
-							if pv, ok := p.(*panicVal); !ok || pv != panicVals[r.curPanic] {
-								o.Ret = Cls{K: "panic", Code: -9}
-								r.notes = append(r.notes, fmt.Sprintf("foreign panic: %v", p))
-							}
+					if it.Rcv && r.curPanic != -2 { // recover() stops a panic (also panic(nil)), never a Goexit
+						p := recover()
+						recovered = true
+						if pv, ok := p.(*panicVal); r.curPanic >= 0 && (!ok || pv != panicVals[r.curPanic]) || r.curPanic == -1 && p != nil {
+							o.Ret = Cls{K: "panic", Code: -9}
+							r.notes = append(r.notes, fmt.Sprintf("foreign panic: %v", p))
 						}
 					} else {
 						*log = append(*log, o)
@@ -433,6 +433,13 @@ func (r *runner) body(h *gorm.DB, b *Blk, log *[]Obs) error {
 		return sentinels[b.E]
 	case "panic":
 		r.curPanic = b.E
+		switch b.E {
+		case -1: // panic with a nil value (this binary has go < 1.21 panic semantics: recover() yields nil)
+			var nothing interface{}
+			panic(nothing)
+		case -2: // the goroutine ends (t.Fatal / require.* inside a block): deferred functions run, nothing is recovered
+			runtime.Goexit()
+		}
 		panic(panicVals[b.E])
 	}
 	return nil
@@ -505,41 +512,79 @@ func run(in Input) Observed {
 	}
 	r := &runner{}
 	top := Obs{K: "child"}
-	func() {
-		defer func() {
-			if p := recover(); p != nil {
-				pv, ok := p.(*panicVal)
-				if ok && pv == panicVals[pv.id] {
-					obs.Ret = Cls{K: "panic", Code: pv.id}
-				} else {
-					obs.Ret = Cls{K: "panic", Code: -9}
-					r.notes = append(r.notes, fmt.Sprintf("foreign panic: %v", p))
+	// The program runs in its own goroutine: it may end by return, by a panic with a value, by
+	// panic(nil) (recover() yields nil but stops it) or by Goexit (nothing stops it).
+	done := make(chan struct{})
+	completed, recoveredNil, afterProgram := false, false, false
+	go func() {
+		defer close(done)
+		func() {
+			defer func() {
+				p := recover()
+				if completed {
+					return
 				}
-			}
-		}()
-		program := func(root *gorm.DB) {
-			for _, x := range in.Stray { // Commit / Rollback on a handle that is not in a transaction
-				h := root.Session(&gorm.Session{})
-				if x == "commit" {
-					obs.Stray = append(obs.Stray, classify(h.Commit().Error))
-				} else {
-					obs.Stray = append(obs.Stray, classify(h.Rollback().Error))
+				if p != nil {
+					pv, ok := p.(*panicVal)
+					if ok && pv == panicVals[pv.id] {
+						obs.Ret = Cls{K: "panic", Code: pv.id}
+					} else {
+						obs.Ret = Cls{K: "panic", Code: -9}
+						r.notes = append(r.notes, fmt.Sprintf("foreign panic: %v", p))
+					}
+					return
 				}
-			}
-			var opts []*sql.TxOptions
-			if in.Opts {
-				opts = []*sql.TxOptions{{}}
-			}
-			if in.Top == "block" {
-				err := root.Transaction(func(tx *gorm.DB) error { return r.fc(tx, &in.Body, &top) }, opts...)
-				obs.Ret = classify(err)
-				return
-			}
-			// manual: the documented Begin / defer-rollback-on-panic / Rollback-on-error / Commit pattern
-			tx := root.Begin(opts...)
-			if tx.Error != nil {
-				// the idiomatic cleanup (defer tx.Rollback(), or Commit) on the handle of a failed Begin
-				obs.Ret = classify(tx.Error)
+				recoveredNil = true // panic(nil) or Goexit: told apart by whether the goroutine goes on
+			}()
+			program := func(root *gorm.DB) {
+				for _, x := range in.Stray { // Commit / Rollback on a handle that is not in a transaction
+					h := root.Session(&gorm.Session{})
+					if x == "commit" {
+						obs.Stray = append(obs.Stray, classify(h.Commit().Error))
+					} else {
+						obs.Stray = append(obs.Stray, classify(h.Rollback().Error))
+					}
+				}
+				var opts []*sql.TxOptions
+				if in.Opts {
+					opts = []*sql.TxOptions{{}}
+				}
+				if in.Top == "block" {
+					err := root.Transaction(func(tx *gorm.DB) error { return r.fc(tx, &in.Body, &top) }, opts...)
+					obs.Ret = classify(err)
+					return
+				}
+				// manual: the documented Begin / defer-rollback-on-panic / Rollback-on-error / Commit pattern
+				tx := root.Begin(opts...)
+				if tx.Error != nil {
+					// the idiomatic cleanup (defer tx.Rollback(), or Commit) on the handle of a failed Begin
+					obs.Ret = classify(tx.Error)
+					for _, x := range in.Extra {
+						if x == "commit" {
+							obs.Extra = append(obs.Extra, classify(tx.Commit().Error))
+						} else {
+							obs.Extra = append(obs.Extra, classify(tx.Rollback().Error))
+						}
+					}
+					return
+				}
+				returned := false
+				defer func() { // roll back when the block does not return: panic with any value (also nil), Goexit
+					if !returned {
+						tx.Rollback()
+					}
+				}()
+				err := r.fc(tx, &in.Body, &top)
+				returned = true
+				if err != nil {
+					tx.Rollback()
+					obs.Ret = classify(err)
+				} else if cerr := tx.Commit().Error; cerr != nil {
+					obs.Ret = classify(cerr)
+					tx.Rollback() // a failed Commit may have left the transaction open
+				} else {
+					obs.Ret = classify(nil)
+				}
 				for _, x := range in.Extra {
 					if x == "commit" {
 						obs.Extra = append(obs.Extra, classify(tx.Commit().Error))
@@ -547,40 +592,27 @@ func run(in Input) Observed {
 						obs.Extra = append(obs.Extra, classify(tx.Rollback().Error))
 					}
 				}
-				return
 			}
-			defer func() {
-				if p := recover(); p != nil {
-					tx.Rollback()
-					panic(p)
+			if in.Conn {
+				// the whole program on ONE dedicated connection: db.Connection(func(c) { ... c.Transaction(...) ... })
+				if cerr := e.db.Connection(func(c *gorm.DB) error { program(c); return nil }); cerr != nil {
+					r.notes = append(r.notes, "Connection: "+cerr.Error())
 				}
-			}()
-			if err := r.fc(tx, &in.Body, &top); err != nil {
-				tx.Rollback()
-				obs.Ret = classify(err)
-			} else if cerr := tx.Commit().Error; cerr != nil {
-				obs.Ret = classify(cerr)
-				tx.Rollback() // a failed Commit may have left the transaction open
 			} else {
-				obs.Ret = classify(nil)
+				program(e.db)
 			}
-			for _, x := range in.Extra {
-				if x == "commit" {
-					obs.Extra = append(obs.Extra, classify(tx.Commit().Error))
-				} else {
-					obs.Extra = append(obs.Extra, classify(tx.Rollback().Error))
-				}
-			}
-		}
-		if in.Conn {
-			// the whole program on ONE dedicated connection: db.Connection(func(c) { ... c.Transaction(...) ... })
-			if cerr := e.db.Connection(func(c *gorm.DB) error { program(c); return nil }); cerr != nil {
-				r.notes = append(r.notes, "Connection: "+cerr.Error())
-			}
-		} else {
-			program(e.db)
-		}
+			completed = true
+		}()
+		afterProgram = true
 	}()
+	<-done
+	if recoveredNil {
+		if afterProgram {
+			obs.Ret = Cls{K: "panic", Code: -1}
+		} else {
+			obs.Ret = Cls{K: "panic", Code: -2}
+		}
+	}
 	e.rec.Fault = nil
 	obs.Log, obs.Entered, obs.Exit = top.Body, top.Entered, top.Exit
 	if obs.Log == nil {
@@ -744,6 +776,12 @@ func (g *gen) outcome(b *Blk) {
 	default:
 		b.Out, b.E = "panic", g.esent%16
 		g.esent++
+		switch g.r.Intn(5) {
+		case 0:
+			b.E = -1 // panic(nil)
+		case 1:
+			b.E = -2 // runtime.Goexit()
+		}
 	}
 }
 
@@ -930,6 +968,9 @@ func smallTrees(depth int, g *gen) []Blk {
 					b := Blk{Items: []Item{}, Out: out}
 					if out != "nil" {
 						b.E = int64(depth)
+					}
+					if out == "panic" { // a value, nil, or Goexit
+						b.E = []int64{int64(depth), -1, -2}[(pre+2*post+len(outs))%3]
 					}
 					if pre == 1 {
 						b.Items = append(b.Items, Item{K: "write", Chk: true})
